@@ -69,6 +69,7 @@ class History:
         self.term_pending = False
         self.finished = False
         self.crashes = 0
+        self.gen_start = 0
         self.log = []
 
     # effective limits for oracles
@@ -124,6 +125,7 @@ class History:
         return b"D" + (p.fail_texts or fail_text)(rng)
 
     def restart(self):
+        self.gen_start = len(self.sim.events)
         self.sim.start_daemons(plan="")
 
     def crash_now(self, who):
@@ -161,6 +163,13 @@ class History:
                         sim.kill_daemons(who=("clean",))
                         if self.finished:
                             break
+                        self.restart()
+                        continue
+                    if self.plan and os.WIFEXITED(st) and os.WEXITSTATUS(st) == 111 and not any(
+                            e["kind"] == "quiesce" for e in sim.events[self.gen_start:]):
+                        # an injected fault during start-up: "cannot start" is the documented answer; supervise restarts it
+                        sim.kill_daemons(who=("clean",))
+                        self.res.counters.inc("startup_refusals_under_fault")
                         self.restart()
                         continue
                     # the daemon may also exit because its cleaner was killed by a plan
@@ -251,10 +260,11 @@ class History:
 def apply_disk_variant(sim, variant, rng):
     """rewrite the real queue files as the disk may return them after a crash: data written since
     the last fsync of a file is lost (single-byte overwrites reverted); directory entries kept"""
+    # the shim's log file has the calls of EVERY process (injectors included), in global order;
+    # inode numbers are reused, so creations by ungated processes must be seen too
     dm = shim.DiskModel()
-    for e in sim.events:
-        if e["kind"] == "sys" and e.get("ph") == "exit":
-            dm.feed(dict(e, c=e.get("c")))
+    for e in shim.read_log(sim.logfile):
+        dm.feed(e)
     q = sim.home + "/queue"
     byino = {}
     for r, ds, fs in os.walk(q):
